@@ -493,7 +493,7 @@ def depth_of(t) -> int:
 
 
 # ---------------------------------------------------------------- verdicts
-DEV_KEYS = {"excLeak": "union-vals-last", "origNested": "union-orig-nested", "inPlace": "union-in-place", "litEq": "literal-eq",
+DEV_KEYS = {"excLeak": "union-vals-last", "origNested": "union-orig-nested", "inPlace": "union-in-place", "setListing": "set-listing-order", "litEq": "literal-eq",
             "dictKey": "dict-key-unchecked", "serCollision": "set-written-with-duplicates"}
 
 
@@ -536,7 +536,11 @@ def classify_replay(rep, case, chan, real, stats):
 
 def report_deviation(rep, devs, t, x, chan, real_ok, ref_acc, info):
     """the real code disagrees with Ref exactly as the Alg layer's named deviation(s) predict: one key per name"""
-    for d in devs:
+    real_devs = [d for d in devs if d != "setListing"]  # not a defect by itself: Python does not fix the order in which a set is listed
+    if not real_devs:
+        rep.extra["set_order_dependent_disagreements"] = rep.extra.get("set_order_dependent_disagreements", 0) + 1
+        return
+    for d in real_devs:
         rep.violation(f"{DEV_KEYS.get(d, d)}/as-alg:{shape(t, x)}",
                       f"{type_str(t)} with input {gamma_repr(x)} ({chan}): real code {'accepts' if real_ok else 'rejects'} where the property says "
                       f"{'accept' if ref_acc else 'reject / another value'} (named deviation {devs} of spec/Types.tla)", info)
@@ -561,6 +565,38 @@ def gamma_repr(x) -> str:
 def python_repro(t, x, chan) -> str:
     call = f"p.parse_object({{'k': {gamma_repr(x)}}})" if chan == "obj" else f"p.parse_args(['--k=' + {x['v']!r}])"
     return f"p = ArgumentParser(exit_on_error=False); p.add_argument('--k', type={type_str(t)}); {call}"
+
+
+def kinds_in(t, acc=None):
+    acc = set() if acc is None else acc
+    acc.add(t["k"])
+    if t["k"] not in ("literal", "enum"):
+        for sub in t["v"]:
+            kinds_in(sub, acc)
+    return acc
+
+
+def model_profile(cases) -> dict:
+    """which branches of the specification the printed cases reach (TLC's -coverage cannot instrument the recursive operators)"""
+    by_kind, nested, results, devs, inputs = {}, {}, {}, {}, {}
+    normalised = fallback = 0
+    for c in cases:
+        row = by_kind.setdefault(c["t"]["k"], {"cases": 0, "ref_accepts": 0, "alg_accepts": 0, "with_deviation": 0})
+        row["cases"] += 1
+        row["ref_accepts"] += c["acc"]
+        row["alg_accepts"] += c["aok"]
+        row["with_deviation"] += bool(c["dev"])
+        inputs[c["x"]["k"]] = inputs.get(c["x"]["k"], 0) + 1
+        for d in c["dev"]:
+            devs[d] = devs.get(d, 0) + 1
+        if c["aok"]:
+            for k in kinds_in(c["t"]):
+                nested[k] = nested.get(k, 0) + 1
+            results[c["av"]["k"]] = results.get(c["av"]["k"], 0) + 1
+            normalised += canon(norm(c["av"])) != canon(norm(c["x"]))
+            fallback += c["x"]["k"] == "str" and c["av"] == c["x"] and c["t"]["k"] != "str"
+    return {"by_top_level_type_kind": by_kind, "type_kinds_inside_accepted_cases": nested, "alg_result_kinds": results, "cases_per_named_deviation": devs,
+            "inputs_by_kind": inputs, "accepted_cases_where_result_differs_from_input": normalised, "accepted_texts_kept_as_the_original_string_by_a_non_str_type": fallback}
 
 
 def load_known(rep):
@@ -724,6 +760,7 @@ def main(argv):
     rep.extra["model_cases_ref_accepts"] = sum(1 for c in cases if c["acc"])
     rep.extra["model_cases_with_named_deviation"] = sum(1 for c in cases if c["dev"])
     rep.extra["vocabulary_rows_checked"] = n_vocab
+    rep.extra["model_profile"] = model_profile(cases)
     rep.extra["replayed_executions"] = n_exec
     rep.rule = ("cases = (type hint, input) pairs: every pair printed by TLC for the bounded grammar (inputs generated from the type: structures over conforming and "
                 "non-conforming elements, arity +-1, wrong containers, every text of the vocabulary) executed through parse_object and, for texts, parse_args; plus seeded "
